@@ -125,6 +125,12 @@ class NoiselessDetector(Detector):
 
         if self.subsamping > 1:
             power = subsample_field(power, subsampling=self.subsamping, new_grid=self.detector_grid, statistic='sum')
+        else:
+            if power.shape[-1:] != (self.detector_grid.size,):
+                raise ValueError('The power must have one value for each point of the input grid of the detector.')
+
+            # The image lives on the detector grid, whatever grid object the power came with.
+            power = Field(power, self.detector_grid)
 
         self.accumulated_charge = self.accumulated_charge + power * dt * weight
 
